@@ -22,6 +22,7 @@ from pySDC.implementations.datatype_classes.particles import particles, fields, 
 from pySDC.projects.DAE.misc.meshDAE import MeshDAE
 
 from vf import common
+from vf.env import c13runs as _c13_runs
 from vf.oracle import valuesem as vs
 
 LEVEL = 'exploration'
@@ -512,13 +513,17 @@ def _sig_of(cfg, ops, mism):
     }
 
 
+_CPU0 = {}
+
+
 def explore_unit(unit):
-    cfg, first, depth, level, t_cap = unit
+    cfg, first, depth, level, t_cap, plan_id = unit
+    cpu0 = _CPU0.setdefault(plan_id, time.process_time())  # CPU clock of this process when it first worked on this plan
     res = {'nodes': 0, 'ok': 0, 'both_reject': 0, 'mismatch': 0, 'alias': 0, 'worst': 0.0, 'viol': {}, 'nviol': {}, 'by_depth': {}, 'capped': False, 'sample': None}
     t_end = t_cap  # CPU seconds this worker process may spend in this plan (None: no cap)
 
     def rec(prefix):
-        if t_end and time.process_time() > t_end:
+        if t_end and time.process_time() - cpu0 > t_end:
             res['capped'] = True
             return
         status, mism, worst, st = run_case(cfg, prefix)
@@ -547,14 +552,14 @@ def explore_unit(unit):
     return res
 
 
-def plan_units(cfgs, depth, level, t_cap=None):
+def plan_units(cfgs, depth, level, t_cap=None, plan_id=0):
     """root node per config is evaluated here (serially); one unit per (config, first op)"""
     units = []
     for cfg in cfgs:
         data, sc = data_for(cfg[2])
         st = vs.build_initial(cfg[0], tuple(cfg[1]), cfg[2], cfg[3], data, sc)
         for op in gen_ops(st, cfg, level):
-            units.append((cfg, op, depth, level, t_cap))
+            units.append((cfg, op, depth, level, t_cap, plan_id))
     return units
 
 
@@ -600,7 +605,7 @@ def run_opseq(rep, tier):
             if status == 'mismatch':
                 best.setdefault(_group_of(cfg, mism), (0, _simplicity(cfg, []), cfg, [], mism))
                 counts[_group_of(cfg, mism)] = counts.get(_group_of(cfg, mism), 0) + 1
-        units = plan_units(cs, depth, level, cpu_cap)
+        units = plan_units(cs, depth, level, cpu_cap, label)
         r.shuffle(units)
         n = {'nodes': 0, 'alias': 0, 'capped': False}
         bd = {}
@@ -760,8 +765,6 @@ def run_norm(rep, tier):
 
 # ------------------------------------------------------------------------------------------------
 def run(rep, tier):
-    from vf.env import c13runs as _c13_runs
-
     rep.assumptions += [
         'element values, dtype promotion and broadcasting of the reference interpreter are plain numpy on plain ndarrays (numpy is trusted; the subclass plumbing of the data types is under test)',
         'abs() of `fields` is not judged: the class defines none; mixed-type arithmetic accepts either operand type as result type; the m/q arrays of particles are compared by value only (their sharing is never written)',
@@ -807,6 +810,4 @@ def replay(rep, case):
                 rep.violation({**sig, 'family': FAMILY[sig['type']], 'dtype': rp['dtype'], 'n': rp['n']}, det, rp)
                 break
     else:
-        from vf.env import c13runs as _c13_runs
-
         _c13_runs.replay(rep, case)
